@@ -188,6 +188,26 @@ theorem writer_satisfies_allSignalFit (itemSize : Nat) (chans : List (Nat × Nat
   simp only [CheckerRules.signalFits, decide_eq_true_eq]
   simpa using h'
 
+/-- the same holds for every packed table — PVP arrays (sizes `NumVectors * NumBytesPVP`, block size `calculate_pvp_block_size`)
+    and support arrays (`NumRows * NumCols * BytesPerElement`): each array lies inside the block whose size is the sum.
+    (The CPHD checker has no rule for these two blocks; this is the writer side only.) -/
+theorem writer_packed_arrays_fit (sizes : List Nat) :
+    ∀ p ∈ packFrom 0 sizes, p.1 + p.2 ≤ sizes.sum := by
+  intro p hp
+  have := (packFrom_bounds 0 sizes p hp).2
+  omega
+
+/-- PVP parameters laid out one after the other (offsets and sizes in 8-byte words, as the generators number them): every
+    parameter lies inside a record of `NumBytesPVP = 8 * (sum of the sizes)` bytes and no two overlap -/
+theorem writer_pvp_fields_tile (words : List Nat) :
+    (∀ f ∈ packFrom 0 words, 8 * (f.1 + f.2) ≤ 8 * words.sum) ∧
+    (packFrom 0 words).Pairwise (fun a b => 8 * (a.1 + a.2) ≤ 8 * b.1) := by
+  constructor
+  · intro f hf
+    have := writer_packed_arrays_fit words f hf
+    omega
+  · exact (packFrom_disjoint 0 words).imp (fun h => by omega)
+
 /-- the arrays the generators lay out never overlap -/
 theorem writer_channels_disjoint (itemSize : Nat) (chans : List (Nat × Nat)) :
     (packFrom 0 (signalSizes itemSize chans)).Pairwise (fun a b => a.1 + a.2 ≤ b.1) :=
@@ -516,6 +536,11 @@ theorem mutation_pixeltype_falsifies_siddSegOk (pt pt' : SiddPixel) (h : (siddEx
   cases pt <;> cases pt' <;> first | exact absurd rfl h | simp [siddSegOk, siddWriterSeg, siddExpect]
 
 /-! ## satisfiable examples -/
+
+-- the hypotheses of `writer_satisfies_xmlEarly` on a real header: 292 bytes of header text, first candidate offset 1024
+example : choose (fun _ => 292) 6163 (some 140) 2240 116 2 1024 = some (layout 1024 6163 (some 140) 2240 116) := by decide
+example : xmlEarly 1024 = true ∧ xmlEarly (2 ^ 28) = false := by decide
+example : packFrom 0 [1, 1, 3, 3, 1] = [(0, 1), (1, 1), (2, 3), (5, 3), (8, 1)] := by decide
 
 example : padAfterXml 1024 6462 true 7488 7552 = true ∧ padAfterXml 1024 6462 true 7487 7552 = false := by decide
 example : (1024 + 6462 + 2) % 64 = 0 := by decide
